@@ -15,6 +15,8 @@ macro_rules! harness_list {
         $m!(s_blob_snapshot, 40, scen::s_blob::<1>);
         $m!(s_reopen, 40, scen::s_reopen);
         $m!(s_codec_enc, 40, scen::s_codec_enc);
-        $m!(s_upgrade, 40, scen::s_upgrade);
+        $m!(s_upgrade_plain, 40, scen::s_upgrade::<0>);
+        $m!(s_upgrade_snap, 40, scen::s_upgrade::<1>);
+        $m!(s_upgrade_leftover, 40, scen::s_upgrade::<2>);
     };
 }
